@@ -21,6 +21,7 @@ import (
 // that can hold arbitrary metadata (entity tags with quotes, backslashes and
 // non-ASCII text, arbitrary instants, MIME types and sizes).
 type MemFS struct {
+	bkCore
 	nodes map[string]*memNode
 	recs  []memRecord
 	rng   *rt.Rand
@@ -90,6 +91,9 @@ func (m *MemFS) Open(ctx context.Context, name string) (io.ReadCloser, error) {
 		return nil, err
 	}
 	m.recs = append(m.recs, memRecord{Op: "Open", Name: name})
+	if err := m.enter("Open", name, false, "", ""); err != nil {
+		return nil, err
+	}
 	n := m.nodes[p]
 	if n == nil || n.info.IsDir {
 		return nil, notFound(p)
@@ -104,6 +108,9 @@ func (m *MemFS) Stat(ctx context.Context, name string) (*webdav.FileInfo, error)
 		return nil, err
 	}
 	m.recs = append(m.recs, memRecord{Op: "Stat", Name: name})
+	if err := m.enter("Stat", name, false, "", ""); err != nil {
+		return nil, err
+	}
 	n := m.nodes[p]
 	if n == nil {
 		return nil, notFound(p)
@@ -118,6 +125,9 @@ func (m *MemFS) ReadDir(ctx context.Context, name string, recursive bool) ([]web
 		return nil, err
 	}
 	m.recs = append(m.recs, memRecord{Op: "ReadDir", Name: name, Recursive: recursive})
+	if err := m.enter("ReadDir", name, false, "", ""); err != nil {
+		return nil, err
+	}
 	if m.nodes[p] == nil {
 		return nil, notFound(p)
 	}
@@ -141,6 +151,9 @@ func (m *MemFS) Create(ctx context.Context, name string, body io.ReadCloser, opt
 		return nil, false, err
 	}
 	m.recs = append(m.recs, memRecord{Op: "Create", Name: name, IfMatch: string(opts.IfMatch), IfNoneMatch: string(opts.IfNoneMatch)})
+	if err := m.enter("Create", name, false, string(opts.IfMatch), string(opts.IfNoneMatch)); err != nil {
+		return nil, false, err
+	}
 	if pn := m.nodes[model.Parent(p)]; pn == nil || !pn.info.IsDir {
 		return nil, false, webdav.NewHTTPError(http.StatusConflict, fmt.Errorf("memfs: parent missing"))
 	}
@@ -173,6 +186,9 @@ func (m *MemFS) RemoveAll(ctx context.Context, name string, opts *webdav.RemoveA
 		return err
 	}
 	m.recs = append(m.recs, memRecord{Op: "RemoveAll", Name: name, IfMatch: string(opts.IfMatch), IfNoneMatch: string(opts.IfNoneMatch)})
+	if err := m.enter("RemoveAll", name, false, "", ""); err != nil {
+		return err
+	}
 	if m.nodes[p] == nil {
 		return notFound(p)
 	}
@@ -189,6 +205,9 @@ func (m *MemFS) Mkdir(ctx context.Context, name string) error {
 		return err
 	}
 	m.recs = append(m.recs, memRecord{Op: "Mkdir", Name: name})
+	if err := m.enter("Mkdir", name, false, "", ""); err != nil {
+		return err
+	}
 	if m.nodes[p] != nil {
 		return webdav.NewHTTPError(http.StatusMethodNotAllowed, fmt.Errorf("memfs: exists"))
 	}
@@ -209,6 +228,9 @@ func (m *MemFS) copyMove(op, name, dest string, noRec, noOw bool) (bool, error) 
 		return false, err
 	}
 	m.recs = append(m.recs, memRecord{Op: op, Name: name, Dest: dest, NoRecursive: noRec, NoOverwrite: noOw})
+	if err := m.enter(op, name, false, "", ""); err != nil {
+		return false, err
+	}
 	if m.nodes[p] == nil {
 		return false, notFound(p)
 	}
